@@ -229,6 +229,10 @@ def _discard_path(ctx):
                    or (o["rule"] == "C02.a" and any(k in o["key"] for k in ("single-disposition", "dispositions=", "abort-only"))), "C05.d")
     ctx.floor("C05.d", n, 8, "shared abort / discard obligations (C02.a, C02.c)")
     nd = core.adopt(ctx, c02, lambda o: o["rule"] == "C02.d" and "one-runner-call-per-path" in o["key"], "C05.d")
+    # a postponed reader is neither run nor aborted if the queue loses it: the queue methods keep every entry (attach puts the
+    # detached list back *in front of* what was pushed meanwhile, nothing is cleared; shared with C12.b)
+    import c12 as _c12
+    nd += core.adopt(ctx, _c12, lambda o: o["rule"] == "C12.b", "C05.d")
     ctx.floor("C05.d", nd, 3, "shared one-runner-call-per-apply-path obligations (C02.d): a counted reader always reaches the runner")
     # a postponed command that is given up is aborted through the abort helper (setup, then cleanup): running the cleanup of
     # a buffered command directly skips the setup that claims its pending metadata, so the cleanup releases the payload of
